@@ -305,7 +305,7 @@ package generic
 //@   ensures strlen: self.t == thrift.MAP && path.t == PathStrKey && r0.t != thrift.ERROR ==> r0.l >= 4 + path.l
 //@   ensures strkey: self.t == thrift.MAP && path.t == PathStrKey && r0.t != thrift.ERROR ==> \
 //@       forall i :: 0 <= i && i < path.l ==> byteat(r0.v, 4 + i) == old(byteat(path.v, i))
-//@   modifies bytes(self.v, self.l)[1:5] if self.t == thrift.LIST || self.t == thrift.SET, bytes(self.v, self.l)[2:6] if self.t == thrift.MAP
+//@   modifies bytes(self.v, self.l)[1:5] if (self.t == thrift.LIST || self.t == thrift.SET) && self.l >= 5, bytes(self.v, self.l)[2:6] if self.t == thrift.MAP && self.l >= 6
 //@   loop 1
 //@     invariant buf: samerg(p.Buf, self.v) && offset(p.Buf) == offset(self.v) && len(p.Buf) == self.l && 6 <= p.Read && p.Read <= len(p.Buf) && 0 <= s && s <= e && e <= p.Read
 //@     decreases size - i
@@ -324,7 +324,7 @@ package generic
 //@   requires sep: !samerg(self, self.v)
 //@   requires meta: nmeta(self.t, self.et, self.kt, self.v, self.l)
 //@   requires paths: forall k :: 0 <= k && k < len(path) ==> pathok(path[k].t, path[k].l)
-//@   modifies *self
+//@   modifies *self, bytes(self.v, self.l)      // the parent container's count bytes are decremented in place (deleteChild)
 //@   ensures ok: r0 == nil && len(path) > 0 && old(self.t) != thrift.ERROR ==> self.l <= old(self.l) && self.l >= 0
 //@   ensures fail: r0 != nil ==> self.l == old(self.l) && samerg(self.v, old(self.v)) && offset(self.v) == old(offset(self.v))
 //@   ensures valid: windowif(self.t != thrift.ERROR, self.v, self.l)
